@@ -128,6 +128,7 @@ def run(tier):
     P.run()
     from harness import probes
     probes.late_serialized_method(R)
+    nested_global_probe(R, jsonschema)
     probes.dynamic_over_default_conversion(R)
     header = P.header() + HEADER_EXTRA + "\n".join(sdefs) + "\n"
     T2 = "js * defs * pyval * bool"
@@ -146,6 +147,60 @@ def run(tier):
              "x aliaser x additional_properties x no_copy; cases where unset-tracking drops fields are excluded; every output is "
              "validated with jsonschema against serialization_schema generated under the same settings",
         level="exploration")
+
+
+NESTED_SRC = '''
+from dataclasses import dataclass, field
+from typing import List, Optional, Dict
+
+@dataclass
+class Leaf:
+    with_default: int = 1
+    opt: Optional[int] = None
+    req_opt: Optional[str] = field(default="s")
+
+@dataclass
+class Mid:
+    leaf: Leaf
+    leaves: List[Leaf] = field(default_factory=list)
+    tag: str = "t"
+
+@dataclass
+class Top:
+    mid: Mid
+    by_name: Dict[str, Mid] = field(default_factory=dict)
+    n: Optional[int] = None
+'''
+
+
+def nested_global_probe(R, jsonschema):
+    """nested (non recursive) objects under each combination of the global exclude settings"""
+    import apischema.cache
+    from apischema import serialize, settings
+    from apischema.json_schema import serialization_schema
+    mod = pyrun.exec_module(NESTED_SRC)
+    Leaf, Mid, Top = mod.Leaf, mod.Mid, mod.Top
+    values = [Top(Mid(Leaf())), Top(Mid(Leaf(1, None, None), [Leaf(2, 3, "x"), Leaf()], "t"), {"k": Mid(Leaf(1, 5, "s"))}, 4),
+              Top(Mid(Leaf(7, None, "s"), [], "u"), {}, None)]
+    old = (settings.serialization.exclude_defaults, settings.serialization.exclude_none)
+    try:
+        for ed in (False, True):
+            for en in (False, True):
+                settings.serialization.exclude_defaults, settings.serialization.exclude_none = ed, en
+                for tp, vs in ((Top, values), (Mid, [v.mid for v in values]), (mod.__dict__["List"][Mid], [[v.mid for v in values]])):
+                    doc = json.loads(json.dumps(serialization_schema(tp, with_schema=False)))
+                    for v in vs:
+                        R.count("nested_global_probe")
+                        out = serialize(tp, v)
+                        errors = list(jsonschema.Draft202012Validator(doc).iter_errors(out))
+                        if errors:
+                            R.violation(f"exclude_defaults={ed}, exclude_none={en} (global): serialize output {out!r} is invalid against "
+                                        f"serialization_schema: {errors[0].message[:120]} at {list(errors[0].absolute_path)}",
+                                        dict(source=NESTED_SRC, schema=doc, output=out))
+    finally:
+        settings.serialization.exclude_defaults, settings.serialization.exclude_none = old
+        pyrun.drop_module(mod)
+        apischema.cache.reset()
 
 
 def replay(data):
